@@ -34,11 +34,13 @@ pub fn rand_pos(r: &mut Rng) -> f64 {
     let m = 1.0 + r.unit();
     m * 2f64.powi(r.range(-8, 8) as i32)
 }
-const AWKWARD: [&str; 8] = ["x", "y z", "\"q\"", "back\\slash", "", "fx_eurusd", "v0", "tab\tname"];
+// (names are arbitrary text: quotes, backslashes, control characters, accented and CJK letters, and characters beyond the
+//  basic multilingual plane - which a JSON writer that escapes to ASCII must write as a surrogate PAIR)
+const AWKWARD: [&str; 14] = ["x", "y z", "\"q\"", "back\\slash", "", "fx_eurusd", "v0", "tab\tname", "\u{3c3}", "\u{5229}\u{7387}", "\u{1d465}", "rate\u{1f4c8}", "e\u{301}", "\u{10ffff}z"];
 fn rand_vars(r: &mut Rng, n: usize) -> Vec<String> {
     let mut v: Vec<String> = vec![];
     while v.len() < n {
-        let s = if r.chance(0.4) { AWKWARD[r.below(8) as usize].to_string() } else { format!("v{}", r.below(40)) };
+        let s = if r.chance(0.4) { AWKWARD[r.below(14) as usize].to_string() } else { format!("v{}", r.below(40)) };
         if !v.contains(&s) {
             v.push(s);
         }
@@ -221,7 +223,7 @@ fn rand_curve(r: &mut Rng, i: usize) -> CurveH {
     // every day-count convention and every modifier (they are stored fields of a curve)
     let conv = rateslib::verif::calendar_py::convention_new((r.below(11)) as u8).unwrap();
     let modi = rateslib::verif::calendar_py::modifier_new((r.below(5)) as u8).unwrap();
-    CurveH::new(nodes, rules[i % 6], ad, "crv", conv, modi, cal, if r.coin() { Some(rand_pos(r)) } else { None }).unwrap()
+    CurveH::new(nodes, rules[i % 6], ad, ["crv", "usd_ois", "\u{1d465}crv", "c \"1\""][i % 4], conv, modi, cal, if r.coin() { Some(rand_pos(r)) } else { None }).unwrap()
 }
 fn rand_knots(r: &mut Rng, k: usize) -> Vec<f64> {
     let mut t: Vec<f64> = (0..(2 * k + r.below(5) as usize)).map(|_| rand_bits(r)).collect();
@@ -746,6 +748,33 @@ pub fn ctors(out: &str) {
         let res = guard(|| FXPair::try_new(a, b));
         o.emit(&json!({"key": format!("ctor/FXPair/{}{}", a, b), "op":"ctor", "fn":"FXPair::try_new", "a": a, "b": b, "la": a.len(), "lb": b.len(), "same": a.to_lowercase() == b.to_lowercase(),
                        "o": match &res { Outcome::Ok(Ok(_)) => "ok", Outcome::Ok(Err(_)) => "err", Outcome::Panic(_) => "panic" }}));
+    }
+    // the ASSERTING constructors `Dual::clone_from` / `Dual2::clone_from` (a plain value, not a Result: a wrong shape is
+    // refused by aborting): every (names, gradient length, rows, columns) combination up to 3, including mis-shaped
+    // second-order arrays with the RIGHT number of entries (1 x 4 for two names)
+    for nv in 0..=3usize {
+        let names: Vec<String> = (0..nv).map(|i| format!("x{}", i)).collect();
+        let donor = Dual::new(1.0, names.clone());
+        let donor2 = Dual2::new(1.0, names.clone());
+        for nd in 0..=3usize {
+            let res = guard(|| Dual::clone_from(&donor, 2.0, ndarray::Array1::from_vec(vec![0.5; nd])));
+            o.emit(&json!({"key": format!("ctor/Dual::clone_from/{}/{}", nv, nd), "op":"ctor", "fn":"Dual::clone_from", "nvars": nv, "nd": nd,
+                           "o": match &res { Outcome::Ok(_) => "ok", Outcome::Panic(_) => "panic" }}));
+            for (rows, cols) in [(0usize, 0usize), (1, 1), (2, 2), (3, 3), (1, 4), (4, 1), (1, 9), (9, 1), (2, 3), (3, 2), (1, 2), (2, 1)] {
+                let res = guard(|| Dual2::clone_from(&donor2, 2.0, ndarray::Array1::from_vec(vec![0.5; nd]), ndarray::Array2::from_elem((rows, cols), 0.25)));
+                o.emit(&json!({"key": format!("ctor/Dual2::clone_from/{}/{}/{}x{}", nv, nd, rows, cols), "op":"ctor", "fn":"Dual2::clone_from", "nvars": nv, "nd": nd, "rows": rows, "cols": cols,
+                               "o": match &res { Outcome::Ok(_) => "ok", Outcome::Panic(_) => "panic" }}));
+            }
+        }
+    }
+    // the quote constructor builds the pair itself: the same grid through `FXRate::try_new` and through the Python-facing `FXRate(...)`
+    for (a, b) in [("usd", "eur"), ("usd", "usd"), ("USD", "usd"), ("us", "eur"), ("usd", "euro"), ("eur", "EUR"), ("Gbp", "gBP")] {
+        for via in ["FXRate::try_new", "FXRate.__new__"] {
+            let res = guard(|| if via == "FXRate::try_new" { FXRate::try_new(a, b, Number::F64(1.5), None).map(|_| ()).map_err(|_| ()) }
+                               else { rateslib::verif::rates_py::quote_new(a, b, Number::F64(1.5), None).map(|_| ()).map_err(|_| ()) });
+            o.emit(&json!({"key": format!("ctor/{}/{}{}", via, a, b), "op":"ctor", "fn": via, "a": a, "b": b, "la": a.len(), "lb": b.len(), "same": a.to_lowercase() == b.to_lowercase(),
+                           "o": match &res { Outcome::Ok(Ok(_)) => "ok", Outcome::Ok(Err(_)) => "err", Outcome::Panic(_) => "panic" }}));
+        }
     }
     // csolve : site / value count grid x allow_lsq, plus singular site sets
     for k in [2usize, 4] {
